@@ -182,6 +182,8 @@ Fixpoint rawF (fuel : nat) (s : tspec) (t : nat) : out * list tr :=
   | NotS n kid => match rawF fuel kid t with
                   | (Ret _, rk) => (Exc (6000 + n), assemble n t (Some (6000 + n)) (k_ok k0 rk))
                   | (Exc _, rk) => (Ret t, assemble n t None (k_fail k0 rk)) end
+  | AndS n l => match and_raw (rawF fuel) t l k0 t with
+                | (r, k) => (r, assemble n t (err_of r) k) end
   end end.
 
 (* ---------- what an evaluation (or a group of evaluations acting as one child) guarantees ---------- *)
@@ -462,6 +464,22 @@ Section LoopsF.
       destruct (rawF fuel x t) as [o rx]. cbn [fst snd] in *. subst o.
       destruct rb as [v|e]; cbn [k_after] in I1.
       + apply (IHl _ _ _ _ _ _ I1 (fun y Hy => Hd y (or_intror Hy)) E).
+      + injection E as <- <-. eexists _, _, _. split; [exact I1|split; reflexivity].
+  Qed.
+
+  Lemma and_loop_inv : forall l st k lc fc last st' r,
+    invF base sid t p f st k lc fc -> (forall x, In x l -> tdepth x < fuel) ->
+    and_loop (glom_ fuel) st f t l last = (st', r) ->
+    exists k' lc' fc', invF base sid t p f st' k' lc' fc' /\
+      r = fst (and_raw (rawF fuel) t l k last) /\ k' = snd (and_raw (rawF fuel) t l k last).
+  Proof.
+    induction l as [|x l IHl]; intros st k lc fc last st' r I Hd E; cbn [and_loop and_raw] in *.
+    - injection E as <- <-. exists k, lc, fc. split; [exact I|split; reflexivity].
+    - destruct (glom_ fuel st f t x) as [st1 rb] eqn:Ex.
+      destruct (invF_step_glom fuel IH _ _ _ _ _ _ _ _ _ _ _ _ I (Hd x (or_introl eq_refl)) Ex) as [Hr I1].
+      destruct (rawF fuel x t) as [o rx]. cbn [fst snd] in *. subst o.
+      destruct rb as [v|e]; cbn [k_after] in I1.
+      + apply (IHl _ _ _ _ _ _ _ I1 (fun y Hy => Hd y (or_intror Hy)) E).
       + injection E as <- <-. eexists _, _, _. split; [exact I1|split; reflexivity].
   Qed.
 
@@ -830,7 +848,7 @@ Proof.
     rewrite Hraw. cbn [fst snd].
     destruct (finalizeF st1 (sid_of s) t p f st2 k lc fc st r2 I2 Hp eq_refl W Hp1 Ho1) as [A B].
     split; [exact A|]. split; [reflexivity|exact B]. }
-  destruct s as [n ok|n|n l|n l|n l|n l|n cs|n ok kid|n l|n kid]; cbn [sid_of] in *.
+  destruct s as [n ok|n|n l|n l|n l|n l|n cs|n ok kid|n l|n kid|n l]; cbn [sid_of] in *.
   - destruct ok.
     + apply (Tail st1 (Ret (2000 + n)) k0 None [] I0 E). reflexivity.
     + apply (Tail st1 (Exc n) k0 None [] I0 E). reflexivity.
@@ -912,6 +930,13 @@ Proof.
       cbn [rawF]. destruct (rawF fuel kid t) as [o rk]. cbn [fst snd] in *. subst o. reflexivity.
     + apply (Tail st2 (Ret t) _ _ _ I2 E).
       cbn [rawF]. destruct (rawF fuel kid t) as [o rk]. cbn [fst snd] in *. subst o. reflexivity.
+  - (* AndS *)
+    cbn [tdepth] in Hd.
+    assert (Hdl : forall x, In x l -> tdepth x < fuel) by (intros x Hx; pose proof (depth_in l x Hx); lia).
+    destruct (and_loop (glom_ fuel) st1 f t l t) as [st2 r2] eqn:Eb.
+    destruct (and_loop_inv fuel IH st1 n t p f l st1 k0 None [] t st2 r2 I0 Hdl Eb) as (k' & lc' & fc' & I2 & Hr2 & Hk2).
+    apply (Tail st2 r2 k' lc' fc' I2 E).
+    cbn [rawF]. destruct (and_raw (rawF fuel) t l k0 t) as [o k2]. cbn [fst snd] in *. subst o k2. reflexivity.
 Qed.
 
 (* ---------- stage 2 for all shapes: push-down and trim applied to the raw descent give the structural reading ---------- *)
@@ -941,6 +966,32 @@ Section Loops2F.
     | (Some e, k2) => nest_exp (exp fuel) sid t l = (Exc e, finish (assemble sid t (Some e) k2), e) /\ raised e S end.
   Proof.
     induction l as [|x l IHl]; intros k S Hk Hi Hs Hft Hlf; cbn [nest_raw nest_exp].
+    - split; [reflexivity|]. split; [exact Hs|]. split; assumption.
+    - destruct (Hk x (or_introl eq_refl)) as (Hd & Hw).
+      destruct (IH x t Hd Hw) as (Ho & Hex).
+      destruct (rawF fuel x t) as [o rx]. destruct (exp fuel x t) as [[o' tx] ex]. cbn [fst snd] in *. subst o'.
+      destruct o as [v|e].
+      + apply IHl.
+        * apply (kids_okF_tail x l Hk).
+        * intros y Hy. apply Hi. cbn [flat_map]. apply in_or_app. right. exact Hy.
+        * apply kstate_ok.
+        * exact Hft.
+        * reflexivity.
+      + destruct (Hex e eq_refl) as (Hfin & -> & Hhd & Hra).
+        assert (Hra' : raised e S).
+        { eapply raised_incl; [exact Hra|]. intros y Hy. apply Hi. cbn [flat_map]. apply in_or_app. left. exact Hy. }
+        split; [|exact Hra'].
+        rewrite above_sameF. f_equal. f_equal.
+        unfold assemble, k_fail. cbn [k_has k_ft k_lf k_lr negb]. rewrite Hft. cbn [app andb].
+        rewrite (finish_same (TR sid t (Some e) []) rx e eq_refl Hhd). cbn [tr_clear]. rewrite Hfin. reflexivity.
+  Qed.
+
+  Lemma and_soundF sid : forall l k S last, kids_okF l -> incl (flat_map sids l) S -> kstate k S -> k_ft k = [] -> k_lf k = false ->
+    match and_raw (rawF fuel) t l k last with
+    | (Ret v, k2) => and_exp (exp fuel) sid t l last = (Ret v, [], 0) /\ kstate k2 S /\ k_ft k2 = [] /\ k_lf k2 = false
+    | (Exc e, k2) => and_exp (exp fuel) sid t l last = (Exc e, finish (assemble sid t (Some e) k2), e) /\ raised e S end.
+  Proof.
+    induction l as [|x l IHl]; intros k S last Hk Hi Hs Hft Hlf; cbn [and_raw and_exp].
     - split; [reflexivity|]. split; [exact Hs|]. split; assumption.
     - destruct (Hk x (or_introl eq_refl)) as (Hd & Hw).
       destruct (IH x t Hd Hw) as (Ho & Hex).
@@ -1140,7 +1191,7 @@ Qed.
 Theorem all_sound2F : forall fuel, sound2F fuel.
 Proof.
   induction fuel as [|fuel IH]; intros s t Hd Hw; [lia|].
-  destruct s as [n ok|n|n l|n l|n l|n l|n cs|n ok kid|n l|n kid].
+  destruct s as [n ok|n|n l|n l|n l|n l|n cs|n ok kid|n l|n kid|n l].
   - (* Leaf *)
     cbn [rawF exp]. destruct ok; cbn [fst snd].
     + split; [reflexivity|discriminate].
@@ -1358,6 +1409,15 @@ Proof.
       split; [apply finish_one|].
       split; [reflexivity|]. split; [reflexivity|]. exists n. split; [left; reflexivity|right; right; reflexivity].
     + split; [reflexivity|discriminate].
+  - (* AndS *)
+    destruct Hw as [Hn Hf]. cbn [sids] in Hn, Hf.  cbn [tdepth] in Hd.
+    pose proof (kids_okF_of fuel n l Hd Hn Hf) as Hk.
+    pose proof (and_soundF fuel IH t n l k0 (flat_map sids l) t Hk (incl_refl _) (kstate_k0 _) eq_refl eq_refl) as H.
+    cbn [rawF exp]. destruct (and_raw (rawF fuel) t l k0 t) as [[v|e] k2]; cbn [err_of].
+    + destruct H as (Hexp & Hks & Hft & Hlf). rewrite Hexp. cbn [fst snd]. split; [reflexivity|discriminate].
+    + destruct H as [Hexp Hra]. rewrite Hexp. cbn [fst snd]. split; [reflexivity|].
+      intros e0 He0. injection He0 as <-. split; [reflexivity|]. split; [reflexivity|]. split; [apply head_err_assemble|].
+      eapply raised_incl; [exact Hra|]. cbn [sids]. apply incl_tl. apply incl_refl.
 Qed.
 
 Lemma WF_root : WF root_store.
@@ -1390,7 +1450,7 @@ Qed.
 (* non-vacuity: chains inside branches inside chains, a Switch, a guard, a Coalesce that recovers through its default *)
 Definition full_example : tspec :=
   Chain 1 [Leaf 2 true;
-           Alt 3 [Chain 4 [AltD 21 [Leaf 22 false; SkipLeaf 23]; NotS 24 (Leaf 25 false); OrS 6 [Leaf 7 false; Chain 8 [Leaf 9 true; Leaf 10 false]]];
+           Alt 3 [Chain 4 [AltD 21 [Leaf 22 false; SkipLeaf 23]; NotS 24 (Leaf 25 false); AndS 26 [Leaf 27 true; Leaf 28 true]; OrS 6 [Leaf 7 false; Chain 8 [Leaf 9 true; Leaf 10 false]]];
                   Switch 11 [(Leaf 12 false, Leaf 13 true); (Guard 14 true (Leaf 15 true), Chain 16 [Leaf 17 true; Leaf 18 false])];
                   SkipLeaf 19];
            Leaf 20 true].
